@@ -39,6 +39,7 @@ def _factory(params, env=None):
         real = 0
         first = params.get("first")
         prefix = params.get("prefix") or ([first] if first is not None else [])
+        mid = _lab.MidStep(lab) if params.get("midstep") else None
         if story:
             prefix = [[sd ^ (1 if params.get("flip") else 0), op] for sd, op in story[0]]
         for k in range(len(prefix) if story else params["nops"]):
@@ -48,11 +49,26 @@ def _factory(params, env=None):
                 side = e.choose("side", 2)
                 ops = OPS_EXT if params.get("ext") else OPS
                 op = ops[e.choose("op", len(ops))]
-            d = do_op(lab, side, op, b"v%d" % k)
+            if mid and k == params["nops"] - 1:
+                # the last operation lands inside an engine step: just before the k-th provider call of one sync step (or of that side's intake)
+                which = (2, side)[e.choose("mid_in", 2)]
+                at = 1 + e.choose("mid_at", params["midstep"])
+                box = []
+                mid.arm(at, lambda: box.append(do_op(lab, side, op, b"v%d" % k)))
+                lab.step(which)
+                if not box:
+                    mid.fn = None
+                    box.append(do_op(lab, side, op, b"v%d" % k))      # the step made fewer calls: the operation lands right after it
+                    hist.append("mid:after-step-%d" % which)
+                else:
+                    hist.append("mid:step-%d-before-call-%d(%s)" % (which, at, mid.fired[1]))
+                d = box[0]
+            else:
+                d = do_op(lab, side, op, b"v%d" % k)
             hist.append((side,) + tuple(d))
             if d[0] not in ("noop", "failed"):
                 real += 1
-            for j in range(story[1][k] if story else params["slots"]):
+            for j in range(story[1][k] if story else (params["slotsper"][k] if params.get("slotsper") else params["slots"])):
                 if params.get("slotmode") == "round":       # coarser schedule: nothing, or one fair round
                     s = e.choose("round", 2)
                     hist.append("r%d" % s)
@@ -118,7 +134,7 @@ def jobs(tier):
     out = []
     focus = []
     if tier == "quick":
-        combos = [(f, b, 2, 1) for f in ("oid", "path") for b in (1, 2)]
+        combos = [("oid", 1, 2, 1), ("oid", 2, 2, 1), ("path", 2, 2, 1)]
         # deeper schedules (2 slots) on the conflict shapes where the known findings live
         focus = [(f, 1, 2, 2, [s, "create_b"]) for f in ("oid", "path") for s in (0, 1)]
     else:
@@ -154,6 +170,12 @@ def jobs(tier):
         for name in STORIES:
             for flip in (False, True):
                 out.append({"harness": "hist", "params": {"flavour": f, "story": name, "flip": flip}, "label": "%s/story=%s%s" % (f, name, "/flipped" if flip else "")})
+    # finer interleaving: the second operation happens inside an engine step (before its k-th provider call)
+    for f in (("oid",) if tier == "quick" else ("oid", "path", "mixed")):
+        for side in (0, 1):
+            for op in OPS:
+                out.append({"harness": "hist", "params": {"flavour": f, "base": 2, "nops": 2, "slots": 1, "slotsper": [1, 0] if tier == "quick" else [1, 1], "midstep": 3 if tier == "quick" else 5, "first": [side, op]},
+                            "label": "%s/base2/2ops/second-inside-a-step/first=%d:%s" % (f, side, op)})
     # a folder taking a deleted file's name; one copy becoming unreadable while the other side has an unsynced edit
     for f in (("oid", "path") if tier == "quick" else ("oid", "path", "mixed")):
         for side in (0, 1):
